@@ -70,6 +70,40 @@ static int lid(a_list const *p)
     ptrdiff_t d = p - ln;
     return (d >= 1 && d < MAXID && p == &ln[d]) ? (int)d : 99;
 }
+/* the raw linking primitives on three nodes X (1), Y (2), Z (3) whose four fields all point at Z beforehand:
+   fields reported as <<X.next, X.prev, Y.next, Y.prev>> (node numbers; 0 = null) */
+static void do_prims(FILE *fo)
+{
+    a_list n[4];
+    a_slist_node sn[4];
+    a_slist sl;
+#define RESET() do { for (int i = 1; i <= 3; ++i) { n[i].next = n[i].prev = &n[3]; sn[i].next = &sn[3]; } } while (0)
+#define ID(p) ((p) == NULL ? 0 : (int)((p) - n))
+#define FIELDS() fprintf(fo, "[%d,%d,%d,%d]", ID(n[1].next), ID(n[1].prev), ID(n[2].next), ID(n[2].prev))
+    fputs("{\"prims\":1,\"link\":", fo);
+    RESET(); a_list_link(&n[1], &n[2]); FIELDS();
+    fputs(",\"loop\":", fo);
+    RESET(); a_list_loop(&n[1], &n[2]); FIELDS();
+    fputs(",\"ctor\":", fo);
+    RESET(); a_list_ctor(&n[1]); FIELDS();
+    fputs(",\"dtor\":", fo);
+    RESET(); a_list_dtor(&n[2]); FIELDS();
+    fputs(",\"init\":", fo);
+    RESET(); a_list_init(&n[1]); FIELDS();
+    RESET(); a_slist_link(&sn[1], &sn[2]);
+    fprintf(fo, ",\"slink\":[%d,%d]", (int)(sn[1].next - sn), (int)(sn[2].next - sn));
+    memset(&sl, 0x5A, sizeof(sl)); a_slist_ctor(&sl);
+    fprintf(fo, ",\"sctor\":[%d,%d]", sl.head.next == NULL, sl.tail == &sl.head);
+    memset(&sl, 0x5A, sizeof(sl)); a_slist_dtor(&sl);
+    fprintf(fo, ",\"sdtor\":[%d,%d]", sl.head.next == NULL, sl.tail == &sl.head);
+    memset(&sl, 0x5A, sizeof(sl)); a_slist_init(&sl);
+    fprintf(fo, ",\"sinit\":[%d,%d]", sl.head.next == NULL, sl.tail == &sl.head);
+    fputs(",\"post\":{}}\n", fo);
+    ++n_events;
+#undef RESET
+#undef ID
+#undef FIELDS
+}
 static int do_list(int const *v, int n, FILE *fo)
 {
     int op = v[1], K = v[2], M = K + 2;
@@ -517,6 +551,7 @@ static unsigned qrnd(void)
     qrnd_s ^= qrnd_s << 13; qrnd_s ^= qrnd_s >> 7; qrnd_s ^= qrnd_s << 17;
     return (unsigned)(qrnd_s >> 24);
 }
+static int prims_done;
 static int do_que_random(unsigned long seed, int nhist, int nops, char const *prefix, int nb)
 {
     FILE *fos[64];
@@ -647,6 +682,7 @@ int main(int argc, char **argv)
     {
         int fam = strstr(line, "5555555") ? 0 : strstr(line, "4444444") ? 1 : strstr(line, "6666666") ? 2 : -1;
         if (fam < 0) { continue; }
+        if (fam == 0 && !prims_done && !skip_until) { do_prims(fo[0]); prims_done = 1; }
         int n = parse_ints(line, v, 4096);
         ++n_edges;
         if (n_edges <= skip_until) { continue; }
